@@ -37,6 +37,18 @@ class Monitor:
     def on_rpc_failure(self, world, rid, call, failure):
         pass
 
+    def on_rpc_done(self, world, call, ok):
+        pass
+
+    def on_cmd_start(self, world, proc):
+        pass
+
+    def on_cmd_end(self, world, proc, rc):
+        pass
+
+    def on_report_unbuilt(self, world, snap, draining, returncode, pending):
+        pass
+
     def on_build_end(self, world, result):
         pass
 
@@ -110,3 +122,942 @@ class StaleChildMonitor(Monitor):
                     world.log_event("stale_child", snap.nodes[c][1], label)
         for i in newly:
             self.stale[i] = descendants_steps(snap, i)
+
+
+# =============================================================================================
+# Reference definitions computed from base tables only (never from cached columns)
+# =============================================================================================
+
+OPTIONAL = Need.OPTIONAL.value
+DEFAULT = Need.DEFAULT.value
+TARGET = Need.TARGET.value
+PLAN = Need.PLAN.value
+
+F = {s.name: s.value for s in FileState}
+FNAME = {s.value: s.name for s in FileState}
+SNAME = {s.value: s.name for s in StepState}
+
+ROLE = {}
+for _n in ("UNCONFIRMED", "MISSING", "CONFIRMED"):
+    ROLE[F[_n]] = "STATIC"
+for _n in ("PLANNED", "BUILT", "OUTDATED"):
+    ROLE[F[_n]] = "OUTPUT"
+ROLE[F["VOLATILE"]] = "VOLATILE"
+ROLE[F["UNDECLARED"]] = None
+
+COL = {name: idx for idx, name in enumerate(__import__("sim.dbview", fromlist=["STEP_COLS"]).STEP_COLS)}
+
+
+class Graph:
+    """Indexes over a snapshot, built once per evaluation."""
+
+    def __init__(self, snap):
+        self.snap = snap
+        self.reach = snap.attached_reachable()
+        self.sources = {}
+        self.sinks = {}
+        for idep, (src, snk) in snap.deps.items():
+            dyn = idep in snap.dyn
+            self.sources.setdefault(snk, []).append((src, dyn))
+            self.sinks.setdefault(src, []).append((snk, dyn))
+
+    def attached(self, i):
+        return i in self.reach
+
+    def kind(self, i):
+        return self.snap.nodes[i][0]
+
+    def label(self, i):
+        return self.snap.nodes[i][1]
+
+    def creator(self, i):
+        return self.snap.nodes[i][2]
+
+    def step(self, i, col):
+        return self.snap.steps[i][COL[col]]
+
+    def file_state(self, i):
+        return self.snap.files[i][0]
+
+    def creator_chain(self, i):
+        out = []
+        seen = set()
+        c = self.creator(i)
+        while c is not None and c not in seen and c in self.snap.nodes:
+            seen.add(c)
+            if self.kind(c) == "root":
+                break
+            out.append(c)
+            c = self.creator(c)
+        return out
+
+    # -- definitions ------------------------------------------------------------------------
+    def input_blocks(self, src, dyn):
+        """UNAVAILABLE rule from the documentation (A.2 'ready')."""
+        st = self.file_state(src)
+        att = self.attached(src)
+        if st == F["VOLATILE"]:
+            return True
+        if dyn:
+            return att and st in (F["PLANNED"], F["OUTDATED"])
+        return (not att) or st not in (F["BUILT"], F["CONFIRMED"])
+
+    def ready(self, s):
+        return not any(
+            self.input_blocks(src, dyn) for src, dyn in self.sources.get(s, ()) if src in self.snap.files
+        )
+
+    def safe(self, s, ignore_hold=False):
+        for a in self.creator_chain(s):
+            if self.kind(a) != "step":
+                continue
+            if self.step(a, "state") not in (RUNNING, SUCCEEDED):
+                return False
+            if not ignore_hold and self.step(a, "_holding") != 0:
+                return False
+        return True
+
+    def regular_outputs(self, s):
+        out = []
+        for snk, dyn in self.sinks.get(s, ()):
+            if snk in self.snap.files and self.attached(snk) and self.file_state(snk) != F["VOLATILE"]:
+                out.append(snk)
+        return out
+
+    def implied_need(self, targets=(), target_dirs=()):
+        """Least fixpoint of need* over attached steps (A.2)."""
+        snap = self.snap
+        steps = [i for i in snap.steps if self.attached(i)]
+        need = {}
+        tset = set(str(t) for t in targets)
+        tdirs = [str(d) for d in target_dirs]
+        for s in steps:
+            n = self.step(s, "need")
+            outs = [self.label(o) for o in self.regular_outputs(s)]
+            if any(o in tset for o in outs):
+                n = max(n, TARGET)
+            elif n == DEFAULT and any(o.startswith(d) for o in outs for d in tdirs):
+                n = max(n, TARGET)
+            need[s] = n
+        consumers = {}
+        for s in steps:
+            cs = set()
+            for o, _ in self.sinks.get(s, ()):
+                for t, _dyn in self.sinks.get(o, ()):
+                    if t in need:
+                        cs.add(t)
+            consumers[s] = cs
+        changed = True
+        while changed:
+            changed = False
+            for s in steps:
+                m = need[s]
+                for t in consumers[s]:
+                    if need[t] > m:
+                        m = need[t]
+                if m != need[s]:
+                    need[s] = m
+                    changed = True
+        return need
+
+
+def running_units(g: Graph):
+    used = {}
+    for (node, name), units in g.snap.res.items():
+        if node in g.snap.steps and g.step(node, "state") == RUNNING:
+            used[name] = used.get(name, 0) + units
+    return used
+
+
+def eligible(g: Graph, s, need, threshold, avail, for_check=None):
+    """R-elig for step s in the state of `g`. Returns (bool, reason)."""
+    if not g.attached(s):
+        return False, "detached"
+    if g.step(s, "state") != PENDING:
+        return False, "not pending"
+    if g.step(s, "deferred"):
+        return False, "deferred"
+    if need.get(s, OPTIONAL) <= threshold:
+        return False, "not needed"
+    has_hash = s in g.snap.step_hash
+    check = has_hash if for_check is None else for_check
+    if not g.safe(s, ignore_hold=check):
+        return False, "creator chain not running/succeeded or holding"
+    if not g.ready(s):
+        return False, "an input is not available"
+    if not check:
+        used = running_units(g)
+        for (node, name), units in g.snap.res.items():
+            if node != s:
+                continue
+            if avail is None or name not in avail:
+                return False, f"resource {name} undefined"
+            if avail[name] - used.get(name, 0) < units:
+                return False, f"resource {name} exhausted"
+    return True, "eligible"
+
+
+# =============================================================================================
+# C09: invariants and transition whitelist
+# =============================================================================================
+
+STEP_EDGES = {
+    (PENDING, RUNNING),
+    (PENDING, CHECKING),
+    (RUNNING, SUCCEEDED),
+    (RUNNING, FAILED),
+    (RUNNING, PENDING),
+    (CHECKING, SUCCEEDED),
+    (CHECKING, PENDING),
+    (CHECKING, FAILED),
+    (SUCCEEDED, PENDING),
+    (FAILED, PENDING),
+}
+
+CREATOR_KINDS = {
+    "file": {"step", "st", "root"},
+    "step": {"step", "root"},
+    "st": {"step"},
+}
+DEP_KINDS = {("file", "step"), ("step", "file"), ("st", "file")}
+
+
+class InvariantMonitor(Monitor):
+    """R-inv: graph-wide invariants after every commit + per-node transition whitelist."""
+
+    name = "invariants"
+
+    def __init__(self, strict_running_hash=True):
+        super().__init__()
+        self.strict_running_hash = strict_running_hash
+        self.edges_seen = set()
+
+    def on_commit(self, world, prev, snap, info):
+        self.count("commits")
+        msgs = self.check_state(snap)
+        for key, msg in msgs:
+            self.violate("R-inv/state", "invariant", f"commit by {info['task']}: {msg}", key)
+        if prev is not None:
+            for key, msg in self.check_transition(prev, snap):
+                self.violate("R-inv/transition", "transition", f"commit by {info['task']}: {msg}", key)
+
+    def check_state(self, snap):
+        out = []
+        nodes = snap.nodes
+        reach = snap.attached_reachable()
+        for i, (kind, label, creator, detached) in nodes.items():
+            if kind == "root":
+                continue
+            if bool(detached) == (i in reach):
+                out.append(
+                    ("detached-flag", f"{snap.key(i)} detached={detached} reachable={i in reach}")
+                )
+            if creator is None and not detached:
+                out.append(("creator-null-attached", snap.key(i)))
+            if creator is not None:
+                ck = nodes.get(creator, (None,))[0]
+                if ck not in CREATOR_KINDS.get(kind, set()):
+                    out.append(("creator-kind", f"{snap.key(i)} created by {ck}"))
+            if kind == "file" and i not in snap.files:
+                out.append(("file-row-missing", snap.key(i)))
+            if kind == "step" and i not in snap.steps:
+                out.append(("step-row-missing", snap.key(i)))
+        # dependencies
+        adj = {}
+        for idep, (src, snk) in snap.deps.items():
+            if src not in nodes or snk not in nodes:
+                out.append(("dep-dangling", f"dependency {idep}: {src}->{snk}"))
+                continue
+            if (nodes[src][0], nodes[snk][0]) not in DEP_KINDS:
+                out.append(("dep-kinds", f"{snap.key(src)} -> {snap.key(snk)}"))
+            adj.setdefault(src, []).append(snk)
+        cyc = _find_cycle(adj)
+        if cyc is not None:
+            out.append(("dep-cycle", " -> ".join(snap.key(i) for i in cyc)))
+        for idep in snap.dyn:
+            if idep not in snap.deps:
+                out.append(("dynamic-dep-dangling", str(idep)))
+        # files
+        for i, (state, hj) in snap.files.items():
+            if i not in nodes:
+                out.append(("file-orphan-row", str(i)))
+                continue
+            det = nodes[i][3]
+            if state == F["UNDECLARED"] and not det:
+                out.append(("undeclared-attached", snap.key(i)))
+            if state in (F["CONFIRMED"], F["BUILT"], F["OUTDATED"]) and hj is None:
+                out.append(("hash-missing", f"{snap.key(i)} {FNAME[state]}"))
+            if state in (F["MISSING"], F["PLANNED"], F["VOLATILE"]) and hj is not None:
+                out.append(("hash-unexpected", f"{snap.key(i)} {FNAME[state]}"))
+        # steps
+        nboot = 0
+        sinks = {}
+        for idep, (src, snk) in snap.deps.items():
+            sinks.setdefault(src, []).append(snk)
+        for i, row in snap.steps.items():
+            if i not in nodes:
+                out.append(("step-orphan-row", str(i)))
+                continue
+            state = row[COL["state"]]
+            det = nodes[i][3]
+            if nodes[i][2] == 1 and not det:
+                nboot += 1
+            if bool(row[COL["_has_hash"]]) != (i in snap.step_hash):
+                out.append(("has-hash-cache", f"{snap.key(i)} _has_hash={row[COL['_has_hash']]}"))
+            if row[COL["deferred"]] and state != PENDING:
+                out.append(("deferred-not-pending", snap.key(i)))
+            if row[COL["_holding"]] and state != RUNNING:
+                out.append(("holding-not-running", f"{snap.key(i)} {SNAME[state]}"))
+            if state == SUCCEEDED and not det:
+                for o in sinks.get(i, ()):
+                    if o in snap.files and not nodes[o][3]:
+                        fs = snap.files[o][0]
+                        if fs not in (F["BUILT"], F["VOLATILE"]):
+                            out.append(
+                                (
+                                    "succeeded-output-not-built",
+                                    f"{snap.key(i)} output {snap.key(o)} is {FNAME[fs]}",
+                                )
+                            )
+            if self.strict_running_hash:
+                if state == RUNNING and i in snap.step_hash:
+                    out.append(("running-with-hash", snap.key(i)))
+                if state == CHECKING and i not in snap.step_hash:
+                    out.append(("checking-without-hash", snap.key(i)))
+        if nboot > 1:
+            out.append(("boot-steps", f"{nboot} boot steps"))
+        # one attached claim per path is guaranteed by the unique (kind,label) index
+        return out
+
+    def check_transition(self, prev, snap):
+        out = []
+        for i, row in snap.steps.items():
+            prow = prev.steps.get(i)
+            if prow is None:
+                if row[COL["state"]] != PENDING:
+                    out.append(("new-step-not-pending", f"{snap.key(i)} {SNAME[row[COL['state']]]}"))
+                continue
+            a, b = prow[COL["state"]], row[COL["state"]]
+            if a == b:
+                continue
+            self.edges_seen.add(("step", SNAME[a], SNAME[b]))
+            if (a, b) in STEP_EDGES:
+                continue
+            was_detached = prev.nodes[i][3]
+            if b == PENDING and was_detached:
+                continue  # re-declaration of a detached step resets it
+            out.append(("step-edge", f"{snap.key(i)} {SNAME[a]} -> {SNAME[b]}"))
+        for i, (state, hj) in snap.files.items():
+            p = prev.files.get(i)
+            if p is None or i not in prev.nodes or i not in snap.nodes:
+                continue
+            a = p[0]
+            if a == state:
+                continue
+            self.edges_seen.add(("file", FNAME[a], FNAME[state]))
+            pn, sn = prev.nodes[i], snap.nodes[i]
+            if not pn[3] and not sn[3] and pn[2] == sn[2]:
+                # attached before and after, same creator: the role may not change
+                if ROLE[a] != ROLE[state]:
+                    out.append(("file-role-change", f"{snap.key(i)} {FNAME[a]} -> {FNAME[state]}"))
+                if state == F["UNCONFIRMED"]:
+                    out.append(("file-back-to-unconfirmed", f"{snap.key(i)} from {FNAME[a]}"))
+            if state == F["UNDECLARED"] and a in (F["BUILT"], F["OUTDATED"]):
+                out.append(("output-memory-lost", f"{snap.key(i)} {FNAME[a]} -> UNDECLARED"))
+        return out
+
+
+def _find_cycle(adj):
+    WHITE, GREY, BLACK = 0, 1, 2
+    color = {}
+    for start in list(adj):
+        if color.get(start, WHITE) != WHITE:
+            continue
+        stack = [(start, iter(adj.get(start, ())))]
+        color[start] = GREY
+        path = [start]
+        while stack:
+            node, it = stack[-1]
+            nxt = next(it, None)
+            if nxt is None:
+                color[node] = BLACK
+                stack.pop()
+                path.pop()
+                continue
+            c = color.get(nxt, WHITE)
+            if c == GREY:
+                k = path.index(nxt)
+                return path[k:] + [nxt]
+            if c == WHITE:
+                color[nxt] = GREY
+                stack.append((nxt, iter(adj.get(nxt, ()))))
+                path.append(nxt)
+    return None
+
+
+INTERNAL_ERRORS = ("ConsistencyError", "IntegrityError", "AssertionError", "OperationalError")
+
+
+class ErrorClassMonitor(Monitor):
+    """No request makes StepUp raise an internal consistency error (C09, second half)."""
+
+    name = "errors"
+
+    def __init__(self):
+        super().__init__()
+        self.injected = 0  # number of injected SQL faults that may surface as internal errors
+
+    def on_rpc_failure(self, world, rid, call, failure):
+        self.count("rpc_failures")
+        if failure.usage:
+            self.count("usage_errors")
+            return
+        q = failure.qualname
+        if q == "InjectedSQLError" or "injected fault" in failure.message:
+            self.count("injected_sql_failures")
+            return
+        nested = q == "RuntimeError" and "Nested DBSession" in failure.message
+        if q in INTERNAL_ERRORS or nested:
+            self.violate(
+                "R-inv/error-class",
+                "internal-error",
+                f"request {call.name} failed with {q}: {failure.message[:500]}",
+                f"internal:{q}:{call.name}",
+            )
+        else:
+            self.count("other_nonusage:" + q)
+
+
+# =============================================================================================
+# C10: dispatch is exact
+# =============================================================================================
+
+
+def build_params(world):
+    """(targets, target_dirs, threshold, available resources) of the live director."""
+    from stepup.core.utils import parse_resources
+
+    cfg = world.serve_config
+    targets = [str(t) for t in (cfg.targets if cfg is not None else [])]
+    tdirs = [str(t) for t in (cfg.target_dirs if cfg is not None else [])]
+    threshold = DEFAULT if (targets or tdirs) else OPTIONAL
+    avail = None
+    if cfg is not None and cfg.available_resources is not None:
+        avail = dict(parse_resources(cfg.available_resources))
+    return targets, tdirs, threshold, avail
+
+
+class DispatchMonitor(Monitor):
+    """R-elig at every dispatch, cache agreement, completeness at phase end."""
+
+    name = "dispatch"
+
+    def __init__(self, check_caches=True):
+        super().__init__()
+        self.check_caches = check_caches
+        self.log_pos = 0
+        self.phase_end_pending = False
+
+    def on_build_start(self, world):
+        self.log_pos = len(world.log)
+        self.phase_end_pending = False
+
+    def on_commit(self, world, prev, snap, info):
+        # did a build phase end since the previous commit?
+        for ev in world.log[self.log_pos :]:
+            if ev[2] == "report" and ev[3] == "DIRECTOR" and ev[4].startswith("Ran "):
+                self.phase_end_pending = True
+            elif ev[2] == "report" and ev[3] == "PHASE" and ev[4] == "build":
+                self.phase_end_pending = False
+        self.log_pos = len(world.log)
+        if prev is None:
+            return
+        targets, tdirs, threshold, avail = build_params(world)
+        dispatched = []
+        for i, row in snap.steps.items():
+            prow = prev.steps.get(i)
+            if prow is None:
+                continue
+            a, b = prow[COL["state"]], row[COL["state"]]
+            if a == PENDING and b in (RUNNING, CHECKING):
+                dispatched.append((i, b))
+        if dispatched:
+            g = Graph(prev)
+            need = g.implied_need(targets, tdirs)
+            for i, b in dispatched:
+                self.count("dispatch.run" if b == RUNNING else "dispatch.check")
+                ok, why = eligible(g, i, need, threshold, avail, for_check=(b == CHECKING))
+                if not ok:
+                    self.violate(
+                        "R-elig/soundness",
+                        "ineligible-dispatch",
+                        f"{prev.key(i)} dispatched as {SNAME[b]} although: {why}",
+                        f"ineligible:{why.split(' ')[0]}",
+                    )
+                if b == CHECKING and g.step(i, "_holding" ) is not None:
+                    if not g.safe(i) and g.safe(i, ignore_hold=True):
+                        world.count("probe.hash_check_bypasses_hold")
+            if self.check_caches:
+                self._check_caches(world, g, need, snap)
+        if self.phase_end_pending:
+            self.phase_end_pending = False
+            draining = bool(world.handler is not None and world.handler.scheduler.draining)
+            if not draining:
+                g = Graph(snap)
+                need = g.implied_need(targets, tdirs)
+                left = []
+                for i in snap.steps:
+                    ok, why = eligible(g, i, need, threshold, avail)
+                    if ok:
+                        left.append(snap.key(i))
+                self.count("phase_end_checked")
+                if left:
+                    self.violate(
+                        "R-elig/completeness",
+                        "eligible-left",
+                        f"build phase ended (not draining) with eligible steps: {sorted(left)[:5]}",
+                        "eligible-left",
+                    )
+
+    def _check_caches(self, world, g, need, snap):
+        """Cached scheduling attributes (as committed) against definitions on the pre-state."""
+        for i in g.snap.steps:
+            if not g.attached(i) or i not in snap.steps:
+                continue
+            row = snap.steps[i]
+            exp_safe = g.safe(i)
+            exp_safe_nh = g.safe(i, ignore_hold=True)
+            if g.creator(i) == 1:
+                # the boot step is seeded safe; the definition agrees (empty creator chain)
+                pass
+            got = (bool(row[COL["_safe"]]), bool(row[COL["_safe_ignoring_hold"]]))
+            if got != (exp_safe, exp_safe_nh):
+                self.violate(
+                    "R-elig/cache",
+                    "cache-safe",
+                    f"{g.snap.key(i)}: _safe,_safe_ignoring_hold={got} definition={(exp_safe, exp_safe_nh)}",
+                    "cache-safe",
+                )
+            if row[COL["_implied_need"]] != need[i]:
+                self.violate(
+                    "R-elig/cache",
+                    "cache-need",
+                    f"{g.snap.key(i)}: _implied_need={row[COL['_implied_need']]} definition={need[i]}",
+                    "cache-need",
+                )
+            if bool(row[COL["_ready"]]) != g.ready(i):
+                self.violate(
+                    "R-elig/cache",
+                    "cache-ready",
+                    f"{g.snap.key(i)}: _ready={row[COL['_ready']]} definition={g.ready(i)}",
+                    "cache-ready",
+                )
+        if snap.temp is not None and snap.temp.get("need_count") is not None:
+            recount = {}
+            g2 = Graph(snap)
+            for i, row in snap.steps.items():
+                if snap.nodes[i][3]:
+                    continue
+                k = (row[COL["_implied_need"]], int(row[COL["state"]] == SUCCEEDED))
+                recount[k] = recount.get(k, 0) + 1
+            have = {k: v for k, v in snap.temp["need_count"].items() if v}
+            if have != recount:
+                self.violate(
+                    "R-elig/cache",
+                    "cache-need-count",
+                    f"step_need_count={have} recount={recount}",
+                    "cache-need-count",
+                )
+
+
+# =============================================================================================
+# C12: job, resource and hold limits (ground truth: the command log and the request log)
+# =============================================================================================
+
+
+class LimitMonitor(Monitor):
+    name = "limits"
+
+    def __init__(self):
+        super().__init__()
+        self.running = {}  # pid -> (label, resources)
+        self.hold_depth = {}  # job_i -> depth (accepted hold minus accepted release)
+        self.held = {}  # step label -> job_i that declared it inside a hold block
+        self.job_label = {}
+        self.max_running = 0
+
+    def on_build_start(self, world):
+        self.running.clear()
+        self.hold_depth.clear()
+        self.held.clear()
+        self.job_label.clear()
+
+    def _resources_of(self, world, label):
+        snap = world.prev_snap
+        if snap is None:
+            return {}
+        for i, (kind, lab, creator, det) in snap.nodes.items():
+            if kind == "step" and lab == label:
+                return {name: u for (n, name), u in snap.res.items() if n == i}
+        return {}
+
+    def on_cmd_start(self, world, proc):
+        cfg = world.serve_config
+        njob = cfg.njob if cfg is not None else 1
+        res = self._resources_of(world, proc.label)
+        self.running[proc.pid] = (proc.label, res)
+        self.job_label[proc.job_i] = proc.label
+        self.count("commands")
+        n = len(self.running)
+        self.max_running = max(self.max_running, n)
+        if n == njob:
+            world.count("probe.job_limit_reached")
+        if n > njob:
+            self.violate(
+                "R-limit/jobs",
+                "too-many-commands",
+                f"{n} commands running with --jobs={njob}: {sorted(l for l, _ in self.running.values())}",
+                "jobs-exceeded",
+            )
+        _t, _td, _thr, avail = build_params(world)
+        used = {}
+        for lab, r in self.running.values():
+            for name, u in r.items():
+                used[name] = used.get(name, 0) + u
+        for name, u in res.items():
+            if avail is None or name not in avail:
+                self.violate(
+                    "R-limit/resources",
+                    "undefined-resource-ran",
+                    f"{proc.label} requires undefined resource {name} and was started",
+                    "resource-undefined",
+                )
+            elif used[name] > avail[name]:
+                self.violate(
+                    "R-limit/resources",
+                    "resource-overcommitted",
+                    f"resource {name}: {used[name]} units in use, {avail[name]} available; "
+                    f"running: {sorted((l, r) for l, r in self.running.values() if name in r)}",
+                    "resource-exceeded",
+                )
+            elif used[name] == avail[name]:
+                world.count("probe.resource_limit_reached")
+        j = self.held.get(proc.label)
+        if j is not None:
+            self.violate(
+                "R-limit/hold",
+                "started-while-held",
+                f"{proc.label} was declared inside a hold() block of job {j} "
+                f"({self.job_label.get(j)}) that has not been released, and its command started",
+                "hold-violated",
+            )
+
+    def on_cmd_end(self, world, proc, rc):
+        self.running.pop(proc.pid, None)
+        # the process of job proc.job_i is gone: whatever it still holds stays held until
+        # somebody declares those steps again
+        self.hold_depth.pop(proc.job_i, None)
+
+    def on_rpc_done(self, world, call, ok):
+        if not call.args:
+            return
+        job = call.args[0]
+        if call.name == "hold_dispatch" and ok:
+            self.hold_depth[job] = self.hold_depth.get(job, 0) + 1
+            world.count("probe.hold")
+            if self.hold_depth[job] > 1:
+                world.count("probe.nested_hold")
+        elif call.name == "release_dispatch" and ok:
+            d = self.hold_depth.get(job, 0) - 1
+            self.hold_depth[job] = max(d, 0)
+            if d <= 0:
+                for lab in [l for l, j in self.held.items() if j == job]:
+                    del self.held[lab]
+        elif call.name == "define_step" and ok:
+            from stepup.core.step import Step
+
+            try:
+                label = Step.adjust_label(call.args[1], workdir=_norm_wd(call.args[6]))
+            except Exception:  # noqa: BLE001
+                return
+            if self.hold_depth.get(job, 0) > 0:
+                self.held[label] = job
+                world.count("probe.defined_under_hold")
+            else:
+                self.held.pop(label, None)
+
+
+def _norm_wd(wd):
+    wd = str(wd)
+    if wd in ("", "./"):
+        return "."
+    return wd
+
+
+# =============================================================================================
+# C03: a step only succeeds on inputs that were final while it ran
+# =============================================================================================
+
+
+class InputFinalityMonitor(Monitor):
+    name = "inputs"
+
+    def __init__(self):
+        super().__init__()
+        self.cmd_running = {}  # label -> pid
+        self.last_rc = {}  # label -> rc of its last command in this build
+        self.windows = {}  # pid -> dict(label, start_seq, end_seq, reads)
+        self.success = []  # (label, pid) of completed successful runs
+        self.build_log_start = 0
+
+    def on_build_start(self, world):
+        self.cmd_running.clear()
+        self.last_rc.clear()
+        self.windows.clear()
+        self.success.clear()
+        self.build_log_start = len(world.log)
+
+    def on_cmd_start(self, world, proc):
+        import os
+
+        label = proc.label
+        self.cmd_running[label] = proc.pid
+        self.windows[proc.pid] = {"label": label, "start": len(world.log), "end": None}
+        snap = world.prev_snap
+        if snap is None:
+            return
+        sid = None
+        for i, (kind, lab, creator, det) in snap.nodes.items():
+            if kind == "step" and lab == label:
+                sid = i
+                break
+        if sid is None:
+            return
+        for idep, (src, snk) in snap.deps.items():
+            if snk != sid or idep in snap.dyn or src not in snap.files:
+                continue
+            path = snap.nodes[src][1]
+            producers = [
+                snap.nodes[s2][1]
+                for d2, (s2, k2) in snap.deps.items()
+                if k2 == src and snap.nodes[s2][0] == "step"
+            ]
+            ap = os.path.join(world.root, path)
+            self.count("initial_inputs_checked")
+            if not os.path.exists(ap):
+                self.violate(
+                    "R-start/ground-truth",
+                    "input-missing-at-start",
+                    f"{label} started while its declared input {path} does not exist",
+                    "start-input-missing",
+                )
+                continue
+            for producer in producers:
+                if producer in self.cmd_running and producer != label:
+                    self.violate(
+                        "R-start/ground-truth",
+                        "producer-running-at-start",
+                        f"{label} started while the producer {producer} of its declared input "
+                        f"{path} is still running",
+                        "start-producer-running",
+                    )
+                elif self.last_rc.get(producer, 0) != 0:
+                    self.violate(
+                        "R-start/ground-truth",
+                        "producer-failed-at-start",
+                        f"{label} started although the last command of {producer} (producer of "
+                        f"{path}) ended with {self.last_rc[producer]}",
+                        "start-producer-failed",
+                    )
+
+    def on_cmd_end(self, world, proc, rc):
+        self.cmd_running.pop(proc.label, None)
+        self.last_rc[proc.label] = rc
+        w = self.windows.get(proc.pid)
+        if w is not None:
+            w["end"] = len(world.log)
+            w["reads"] = list(proc.reads)
+
+    def on_commit(self, world, prev, snap, info):
+        if prev is None:
+            return
+        for i, row in snap.steps.items():
+            prow = prev.steps.get(i)
+            if prow is None:
+                continue
+            if prow[COL["state"]] == RUNNING and row[COL["state"]] == SUCCEEDED:
+                label = snap.nodes[i][1]
+                # the window of the last finished command of this label
+                cand = [
+                    (pid, w)
+                    for pid, w in self.windows.items()
+                    if w["label"] == label and w["end"] is not None
+                ]
+                if not cand:
+                    continue
+                pid, w = max(cand)
+                inputs = set()
+                for idep, (src, snk) in snap.deps.items():
+                    if snk == i and src in snap.files:
+                        inputs.add(snap.nodes[src][1])
+                self.count("successes_checked")
+                actor_self = f"step:{pid}"
+                for ev in world.log[w["start"] : w["end"]]:
+                    if ev[2] == "fs" and ev[4] in ("write", "remove", "rename", "rmdir"):
+                        if ev[5] in inputs and ev[3] != actor_self:
+                            self.violate(
+                                "R-final/window",
+                                "input-changed-while-running",
+                                f"{label} recorded as SUCCEEDED although its input {ev[5]} was "
+                                f"changed ({ev[4]} by {ev[3]}) while its command ran",
+                                "succeeded-despite-change",
+                            )
+                self.success.append((label, pid, sorted(inputs), w.get("reads", [])))
+
+    def on_build_end(self, world, result):
+        """Every content a finally-SUCCEEDED step read equals the final content of that input."""
+        import os
+
+        from .simfs import digest_of
+
+        snap = world.prev_snap
+        if snap is None:
+            return
+        final_state = {}
+        for i, row in snap.steps.items():
+            final_state[snap.nodes[i][1]] = (row[COL["state"]], snap.nodes[i][3])
+        last = {}
+        for label, pid, inputs, reads in self.success:
+            last[label] = (pid, inputs, reads)
+        for label, (pid, inputs, reads) in last.items():
+            st = final_state.get(label)
+            if st is None or st[0] != SUCCEEDED or st[1]:
+                continue
+            for relpath, d in reads:
+                if relpath not in inputs:
+                    continue
+                now = digest_of(os.path.join(world.root, relpath))
+                self.count("reads_checked")
+                if d != now:
+                    self.violate(
+                        "R-final/content",
+                        "stale-read",
+                        f"{label} is SUCCEEDED but read {relpath} with digest {d}, "
+                        f"while the file holds {now} at the end of the build",
+                        "succeeded-on-stale-read",
+                    )
+
+
+# =============================================================================================
+# C19: exit status and final report
+# =============================================================================================
+
+
+class ExitStatusMonitor(Monitor):
+    name = "exit"
+
+    def __init__(self):
+        super().__init__()
+        self.reports = []  # one per report_unbuilt call
+
+    def on_report_unbuilt(self, world, snap, draining, returncode, pending):
+        """Called by the wrapper around finalize.report_unbuilt."""
+        from stepup.core.enums import ReturnCode
+
+        self.count("reports")
+        targets, tdirs, threshold, avail = build_params(world)
+        g = Graph(snap)
+        need = g.implied_need(targets, tdirs)
+        failed = [
+            snap.key(i)
+            for i, row in snap.steps.items()
+            if g.attached(i) and row[COL["state"]] == FAILED
+        ]
+        pend_required = [
+            snap.key(i)
+            for i, row in snap.steps.items()
+            if g.attached(i) and row[COL["state"]] == PENDING and need[i] > threshold
+        ]
+        not_done_required = [
+            snap.key(i)
+            for i, row in snap.steps.items()
+            if g.attached(i) and row[COL["state"]] != SUCCEEDED and need[i] > threshold
+        ]
+        rc = returncode
+        has = lambda flag: bool(rc & flag)  # noqa: E731
+        reports = [r for r in world.reports[-40:]]
+        glob_error = any(
+            tag == "ERROR" and "glob match(es) are files that a step builds" in desc
+            for tag, desc, pages in reports
+        )
+        if failed and not has(ReturnCode.FAILED):
+            self.violate(
+                "R-exit/failed",
+                "failed-bit-missing",
+                f"steps {failed[:4]} are FAILED but the exit status {rc} lacks FAILED",
+                "failed-bit-missing",
+            )
+        if has(ReturnCode.FAILED) and not failed and not glob_error:
+            self.violate(
+                "R-exit/failed",
+                "failed-bit-unjustified",
+                f"exit status {rc} has FAILED but no active step is FAILED and no product match was reported",
+                "failed-bit-unjustified",
+            )
+        if bool(draining) != has(ReturnCode.DRAINED):
+            self.violate(
+                "R-exit/drained",
+                "drained-bit",
+                f"draining={draining} but exit status is {rc}",
+                "drained-bit",
+            )
+        want_pending = (not draining) and bool(pend_required)
+        if want_pending != has(ReturnCode.PENDING):
+            self.violate(
+                "R-exit/pending",
+                "pending-bit",
+                f"draining={draining}, required pending steps={pend_required[:4]} "
+                f"but exit status is {rc}",
+                "pending-bit-" + ("missing" if want_pending else "unjustified"),
+            )
+        if rc == ReturnCode(0) and not_done_required:
+            self.violate(
+                "R-exit/zero",
+                "zero-with-unfinished",
+                f"exit status 0 although required steps are not SUCCEEDED: {not_done_required[:4]}",
+                "zero-with-unfinished",
+            )
+        if pending is not None:
+            summary, totals = pending
+            self.count("summaries")
+            s_attr = sum(totals.values()) + summary.cyclic.nblocked
+            if summary.ntotal != len(pend_required):
+                self.violate(
+                    "R-exit/summary",
+                    "summary-total",
+                    f"summary counts {summary.ntotal} pending steps, definition gives "
+                    f"{len(pend_required)}: {pend_required[:5]}",
+                    "summary-total",
+                )
+            if s_attr != summary.ntotal:
+                self.violate(
+                    "R-exit/summary",
+                    "summary-partition",
+                    f"attributed {dict(totals)} + cyclic {summary.cyclic.nblocked} != total {summary.ntotal}",
+                    "summary-partition",
+                )
+            if summary.runnable.nblocked and not draining:
+                self.violate(
+                    "R-exit/summary",
+                    "summary-runnable",
+                    f"{summary.runnable.nblocked} pending step(s) reported as runnable at the end "
+                    f"of a build phase that was not cut short, e.g. {summary.runnable.example}",
+                    "summary-runnable",
+                )
+            for k in ("failed", "deferred", "other", "cyclic"):
+                if getattr(summary, k).nblocked:
+                    world.count(f"probe.pending_bucket_{k}")
+            if summary.inputs:
+                world.count("probe.pending_bucket_inputs")
+            if summary.resources:
+                world.count("probe.pending_bucket_resources")
